@@ -118,9 +118,14 @@ def numDigits : Nat → Nat → Nat
   | 0, _ => 1
   | fuel + 1, n => if n < 10 then 1 else 1 + numDigits fuel (n / 10)
 
-/-- seconds of TSTEP as `add_time_variable` slices `'%06d' % TSTEP` : `[:2] [2:4] [4:]`
-(with `k ≥ 6` characters: first two, next two, the rest) -/
+/-- seconds of TSTEP as `add_time_variable` computes them (repaired code: arithmetic split of HHMMSS with as many
+hour digits as needed) -/
 def tstepSecondsATV (T : Nat) : Nat :=
+  3600 * (T / 10000) + 60 * (T / 100 % 100) + T % 100
+
+/-- the slicing of `'%06d' % TSTEP` by character position (`[:2] [2:4] [4:]`) that the code used before the repair;
+kept for the counterexample theorem -/
+def tstepSecondsSliced (T : Nat) : Nat :=
   if T = 0 then 0 else
   let k := max 6 (numDigits 30 T)
   3600 * (T / 10 ^ (k - 2)) + 60 * (T / 10 ^ (k - 4) % 100) + T % 10 ^ (k - 4)
